@@ -9,6 +9,7 @@ import (
 	"fmt"
 	"io"
 
+	netty "github.com/go-netty/go-netty"
 	"github.com/go-netty/go-netty/zz_verif/explore"
 	"github.com/go-netty/go-netty/zz_verif/hlib"
 	"github.com/go-netty/go-netty/zz_verif/mock"
@@ -88,14 +89,36 @@ func kindOf(c hlib.ChanCfg) string {
 // scheduler explores every choice among simultaneously ready select cases and
 // every placement of the sender a successful enqueue would start).
 func after(cfg hlib.ChanCfg, arg closeArg, ctxKind string, ep hlib.EP) *explore.Scenario {
+	return afterVariant(cfg, arg, ctxKind, ep, "")
+}
+
+// panicsOnInactive is an application handler whose inactive callback fails.
+type panicsOnInactive struct{ hlib.Reader }
+
+func (panicsOnInactive) HandleInactive(ctx netty.InactiveContext, ex netty.Exception) {
+	panic(errors.New("inactive handler failure"))
+}
+
+// afterVariant: "lax-transport" = the transport itself accepts writes after Close (the channel must refuse
+// them); "inactive-handler-panics" = the application's inactive handler panics while Close delivers the event.
+func afterVariant(cfg hlib.ChanCfg, arg closeArg, ctxKind string, ep hlib.EP, variant string) *explore.Scenario {
+	name := fmt.Sprintf("after/%s/close(%s)/ctx=%s/%s", cfg, arg.name, ctxKind, ep)
+	if variant != "" {
+		name += "/" + variant
+	}
 	return &explore.Scenario{
-		Name:  fmt.Sprintf("after/%s/close(%s)/ctx=%s/%s", cfg, arg.name, ctxKind, ep),
+		Name:  name,
 		Bound: 2,
 		Cfg:   vsched.Config{MaxSteps: 4000},
 		Init:  func() any { return &obs{closeEnd: -1} },
 		Body: func(v any) {
 			o := v.(*obs)
-			o.env = hlib.NewEnv(cfg, nil)
+			if variant == "inactive-handler-panics" {
+				o.env = hlib.NewEnv(cfg, nil, &panicsOnInactive{})
+			} else {
+				o.env = hlib.NewEnv(cfg, nil)
+			}
+			o.env.T.LaxAfterClose = variant == "lax-transport"
 			o.env.Ch.Close(arg.err)
 			o.closeEnd = hlib.Stamp("close-returned")
 			c := hlib.NewCall(1, ep, 5)
@@ -237,6 +260,15 @@ func build(tier string) []*explore.Scenario {
 			}
 		}
 	}
+	for _, cfg := range cfgs {
+		for _, arg := range closeArgs[:2] {
+			for _, ep := range allEPs {
+				for _, variant := range []string{"lax-transport", "inactive-handler-panics"} {
+					scs = append(scs, afterVariant(cfg, arg, "background", ep, variant))
+				}
+			}
+		}
+	}
 	bound := 2
 	if tier == "thorough" {
 		bound = 4
@@ -261,7 +293,7 @@ func build(tier string) []*explore.Scenario {
 func main() {
 	explore.Main(explore.Spec{
 		Property:    "C11",
-		Rule:        "(a) Close(arg) completed, then each of the 7 write entry points x {sync, aq(2,B), aq(2,N)} x Close argument {nil, sentinel, wrapped, io.EOF, context.Canceled} x caller context {background, live, cancelled}, exploring every choice among simultaneously ready select cases and every schedule of a sender the call may start; (b) a writer goroutine (2 calls) overlapping a closing goroutine, all interleavings up to the preemption bound, judging only calls that began after Close returned; distinct = distinct (transport log, call result) observations",
+		Rule:        "(a) Close(arg) completed, then each of the 7 write entry points x {sync, aq(2,B), aq(2,N)} x Close argument {nil, sentinel, wrapped, io.EOF, context.Canceled} x caller context {background, live, cancelled} (also with a transport that itself accepts writes after Close, and with an application inactive handler that panics during Close), exploring every choice among simultaneously ready select cases and every schedule of a sender the call may start; (b) a writer goroutine (2 calls) overlapping a closing goroutine, all interleavings up to the preemption bound, judging only calls that began after Close returned; distinct = distinct (transport log, call result) observations",
 		Assume:      []string{"'after Close has returned' is read as: the call began after Close returned (overlapping calls are judged by C01/C06)", "mock transport fails writes after Close like a closed socket"},
 		Build:       build,
 		MinOutcomes: 2,
